@@ -321,6 +321,38 @@ let fileset_dupsort acc =
     ignore (Sys.command (Printf.sprintf "rm -rf %s" (Filename.quote dir))))
     [ (1, [ 3; 1; 4 ]); (2, [ 3; 1; 4 ]); (1, [ 2; 2 ]); (2, [ 0; 5; 1; 3 ]) ]
 
+(* my_fileset_reload on arbitrary setfile TEXTS against model/Setfile.v (T07g): the paths it loads are the model's names
+   that exist, sorted, each once.  Lines: names of existing and of missing files (relative, ./relative, absolute), empty
+   lines (they name the setfile's directory, which exists), lines cut by a NUL byte, repeated lines, blanks, a last line
+   with or without its newline *)
+external c_my_fileset_names : string -> string list = "vp_my_fileset_names"
+let check_setfile_text acc st =
+  let dir = Filename.concat (Wr.tmpdir ()) (Printf.sprintf "fst_%d" (Unix.getpid ())) in
+  ignore (Sys.command (Printf.sprintf "rm -rf %s && mkdir -p %s/sub" (Filename.quote dir) (Filename.quote dir)));
+  let touch p = let oc = open_out p in output_string oc "x"; close_out oc in
+  List.iter (fun n -> touch (Filename.concat dir n)) [ "a.mtbl"; "b.mtbl"; "sub/c.mtbl"; "d"; "e e" ];
+  let line () = (match rint st 14 with
+      | 0 -> "a.mtbl" | 1 -> "./b.mtbl" | 2 -> Filename.concat dir "sub/c.mtbl" | 3 -> "sub/c.mtbl" | 4 -> "missing.mtbl"
+      | 5 -> "" | 6 -> "a.mtbl\000junk" | 7 -> "\000" | 8 -> "d" | 9 -> "e e" | 10 -> " a.mtbl" | 11 -> Filename.concat dir "d"
+      | 12 -> "/nonexistent/x" | _ -> "b.mtbl") in
+  let lines = List.init (rrange st 0 7) (fun _ -> line ()) in
+  let text = String.concat "\n" lines ^ (if lines <> [] && rbool st then "" else if lines = [] then "" else "\n") in
+  let case = lazy (JO [ "op", JS "my_fileset_reload on a setfile text"; "text", jbytes text ]) in
+  record acc ~key:("text" ^ text) ~nontrivial:(List.length lines >= 2) ~klass:"setfile_text" case;
+  let setfile = Filename.concat dir "set.fileset" in
+  let oc = open_out_bin setfile in output_string oc text; close_out oc;
+  let model = List.map string_of_nl (setfile_names (nl_of_string dir) (nl_of_string text)) in
+  let expect = List.sort_uniq compare (List.filter Sys.file_exists model) in
+  (match in_child (fun () -> "DONE" ^ Marshal.to_string (c_my_fileset_names setfile) []) with
+   | Exited (_, s) when String.length s > 4 && String.sub s 0 4 = "DONE" ->
+     let got : string list = Marshal.from_string s 4 in
+     if got <> expect then
+       fail acc ~kind:"model_mismatch" ~what:"[C07] the paths my_fileset_reload loads from this setfile text are not the names model/Setfile.v reads from it (those that exist, sorted, each once)"
+         (JO [ "case", Lazy.force case; "impl", JL (List.map jbytes got); "model", JL (List.map jbytes expect) ])
+   | Signaled (sg, _) -> fail acc ~kind:"spec_violation" ~what:(Printf.sprintf "[C07] my_fileset_reload stopped the process on a setfile text (signal %d)" sg) (Lazy.force case)
+   | Exited (_, s) -> fail acc ~kind:"model_mismatch" ~what:"[C07] harness error" (JO [ "case", Lazy.force case; "msg", JS s ]));
+  ignore (Sys.command (Printf.sprintf "rm -rf %s" (Filename.quote dir)))
+
 let run ~tier ~seed ~only acc =
   let idx = ref 0 in
   let want () = cur_index := !idx; (match only with None -> true | Some i -> i = !idx) in
@@ -387,6 +419,10 @@ let run ~tier ~seed ~only acc =
   ] in
   List.iter (fun c -> if want () then check acc ~klass:"directed" c; incr idx) directed;
   if want () then fileset_dupsort acc; incr idx;
+  for _ = 1 to (if tier = "thorough" then 2000 else 150) do
+    if want () then check_setfile_text acc (case_rng ~seed ~engine ~index:!idx);
+    incr idx
+  done;
   let n = if tier = "thorough" then 4000 else 500 in
   for _ = 1 to n do
     if want () then check acc ~klass:"random_history" (gen_history (case_rng ~seed ~engine ~index:!idx));
